@@ -27,9 +27,9 @@ REPLAY_DIR = os.environ.get("VERIF_REPLAY_DIR") or os.path.join(ROOT, "replays")
 
 # runs, wall budget (s) for the main batch, determinism sample size.
 TIERS = {
-    "C07": {"quick": (3000, 150, 24), "thorough": (80000, 1500, 240)},
-    "C03": {"quick": (1200, 240, 16), "thorough": (14000, 1800, 200)},
-    "C11": {"quick": (700, 240, 16), "thorough": (9000, 1800, 200)},
+    "C07": {"quick": (5000, 200, 24), "thorough": (80000, 1500, 240)},
+    "C03": {"quick": (2000, 300, 16), "thorough": (14000, 1800, 200)},
+    "C11": {"quick": (1000, 300, 16), "thorough": (9000, 1800, 200)},
 }
 CHUNK = {"C07": 20, "C03": 4, "C11": 4}
 
